@@ -4,7 +4,7 @@ import GrpcModel.Model.MsgSize
 /-! component `s_msgsize` (C21, e2e): real ClientConn + Server over bufconn.
 
   `cfg <scReq|-> <scResp|-> <dialSend|-> <dialRecv|-> <srvRecv|-> <srvSend|->`
-  `call <callSend|-> <callRecv|-> <none|pad|rle> <req> <resp>` → `code=<n> srv=<len|-> cli=<len|-> why=<-|send|recvwire|recvplain>` -/
+  `call <callSend|-> <callRecv|-> <none|pad|rle> <req> <resp> [unary|stream|prep]` → `code=<n> srv=<len|-> cli=<len|-> why=<-|send|recvwire|recvplain>` -/
 namespace GrpcModel.Driver.S_msgsize
 open GrpcModel.Driver GrpcModel.MsgSize GrpcModel.Driver.Msgsize
 
@@ -73,7 +73,10 @@ def step : Step St := fun st fs impl =>
       ({ cfg := some ({ scReq := scReq, scResp := scResp, dialSend := dialSend, dialRecv := dialRecv },
                       { recv := srvRecv, send := srvSend }) }, "ok", "-")
     | _, _, _, _, _, _ => (st, "bad-op", "-")
-  | ["call", cs, cr, comp, req, resp] =>
+  | "call" :: cs :: cr :: comp :: req :: resp :: mode =>
+    -- mode: (none)/unary = Invoke; stream = NewStream/SendMsg/RecvMsg; prep = the same with both messages
+    -- sent as *grpc.PreparedMsg. The size checks are the same in all three (theorem prepared_msg_is_checked).
+    if mode ≠ [] ∧ mode ≠ ["unary"] ∧ mode ≠ ["stream"] ∧ mode ≠ ["prep"] then (st, "bad-op", "-") else
     match st.cfg with
     | none => (st, "nocfg", "-")
     | some (c, s) =>
